@@ -2,6 +2,7 @@ package main
 
 import (
 	"fmt"
+	"os"
 	"go/token"
 	"go/types"
 	"sort"
@@ -137,7 +138,7 @@ var storeMutators = map[string]bool{
 }
 
 func checkC40(c *Ctx, r *Report) {
-	r.Explanation = "Effect proof that no ops MCP tool changes cluster state. Obligations, all discharged by call-graph and write-set analysis of the current source: (O1) from the handler registered by each mcp.AddTool call, over static calls, closures, function values and interface calls resolved by class-hierarchy analysis across every type of the module, no call site is reachable whose callee is a metadata.Store mutator (UpdateOffsets, CommitConsumerOffset, PutConsumerGroup, DeleteConsumerGroup, UpdateTopicConfig, CreatePartitions, CreateTopic, DeleteTopic — interface or implementation), InMemoryStore.Update, or an etcd write (KV.Put/Delete/Txn/Compact, Lease.*); (O2) no reachable function stores to a field of InMemoryStore or EtcdStore, nor updates or deletes from a map held in one (so 'no mutator reachable' cannot be bypassed by a direct write); (O3) inside internal/mcpserver every store goes to memory allocated in that function (locals, fresh slices/maps, new objects), never through a pointer obtained from the metadata store, so results handed out by the store are not modified; (O4) the reachable set contains no reflect call, unsafe pointer conversion or linkname. Trusted base: go/types and go/ssa, soundness of CHA for Go code without reflection, the etcd client's read calls (Get, Watch) being read-only."
+	r.Explanation = "Effect proof that no ops MCP tool changes cluster state. Obligations, all discharged by call-graph and write-set analysis of the current source: (O1) from the handler registered by each mcp.AddTool call, over static calls, closures, function values and interface calls resolved by class-hierarchy analysis across every type of the module, no call site is reachable whose callee is a metadata.Store mutator (UpdateOffsets, CommitConsumerOffset, PutConsumerGroup, DeleteConsumerGroup, UpdateTopicConfig, CreatePartitions, CreateTopic, DeleteTopic — interface or implementation), InMemoryStore.Update, or an etcd write (KV.Put/Delete/Txn/Compact, Lease.*); (O2) every write site in the reachable set — stores, map updates, delete/clear/copy, and reference arguments handed to library functions outside a read-only table — is judged by a demand-driven points-to analysis (memflow.go: allocation sites, loads resolved through what was stored, returned pointers followed into callees with the call site as context, interface calls by CHA, first-level field sensitivity for struct copies): no written memory may be reachable through a field of InMemoryStore or EtcdStore (the mutexes and EtcdStore.available/lastError are the named exemptions); functions writing through a parameter are judged at each of their call sites; so neither a direct write, nor a getter that hands out internal memory combined with a tool that edits what it got, escapes, while editing a clone is accepted; (O3) the reachable set contains no reflect call, unsafe pointer conversion or linkname. Trusted base: go/types and go/ssa, soundness of CHA for Go code without reflection, the etcd client's read calls (Get, Watch) being read-only."
 	r.NotCovered = "state outside the metadata store (metrics counters, logs); behaviour of the etcd server itself"
 	r.Assumptions = []string{
 		"class-hierarchy analysis over the module's types over-approximates every dynamic dispatch (no reflection, unsafe or linkname in the reachable set: obligation O4)",
@@ -150,9 +151,8 @@ func checkC40(c *Ctx, r *Report) {
 		return
 	}
 	r.rule("C40.O1", "per tool: no Store mutator / InMemoryStore.Update / etcd write is reachable from the handler", 8)
-	r.rule("C40.O2", "no reachable function writes a field or map of InMemoryStore / EtcdStore", 1)
-	r.rule("C40.O3", "stores inside internal/mcpserver go to function-local allocations only", 1)
-	r.rule("C40.O4", "no reflection / unsafe in the reachable set", 1)
+	r.rule("C40.O2", "no write in the reachable set can land in memory held by InMemoryStore / EtcdStore (points-to judgement of every write site)", 1)
+	r.rule("C40.O3", "no reflection / unsafe in the reachable set", 1)
 
 	rt := needFn(m, r, "C40.O1", pkgMCP, "registerTools")
 	if rt == nil {
@@ -266,63 +266,128 @@ func checkC40(c *Ctx, r *Report) {
 	r.Extra["tools"] = len(tools)
 	r.Extra["reachable_functions"] = len(all)
 
-	// ---- O2
-	var writes []string
+	// ---- O2 / O3: may-write analysis over the reachable set
 	isStoreType := func(t string) bool {
 		return strings.HasSuffix(t, "metadata.InMemoryStore") || strings.HasSuffix(t, "metadata.EtcdStore")
 	}
-	throughStore := func(addr ssa.Value) (bool, string) {
-		hit, which := false, ""
-		addrChain(addr, func(v ssa.Value) {
-			if fa, ok := v.(*ssa.FieldAddr); ok {
-				if t, f, _, ok := fieldAddrInfo(fa); ok && isStoreType(t) {
-					// one named exemption: the health flag / last error of the last etcd round trip are not
-					// topics/offsets/groups/configuration and every read records it
-					if strings.HasSuffix(t, "EtcdStore") && (f == "available" || f == "lastError") {
-						return
-					}
-					hit, which = true, t[strings.LastIndex(t, ".")+1:]+"."+f
-				}
-			}
-		})
-		return hit, which
+	heldField := func(v ssa.Value) (string, bool) {
+		fa, ok := v.(*ssa.FieldAddr)
+		if !ok {
+			return "", false
+		}
+		t, f, _, ok := fieldAddrInfo(fa)
+		if !ok || !isStoreType(t) {
+			return "", false
+		}
+		// named exemptions: the mutexes (locked by readers) and the health flag / last error of the
+		// last etcd round trip, which are not topics/offsets/groups/configuration
+		if f == "mu" || f == "persistMu" {
+			return "", false
+		}
+		if strings.HasSuffix(t, "EtcdStore") && (f == "available" || f == "lastError") {
+			return "", false
+		}
+		return t[strings.LastIndex(t, ".")+1:] + "." + f, true
 	}
+	eng := newPtsEngine(m, nil)
+	eng.mark = func(v ssa.Value) bool { _, ok := heldField(v); return ok }
+	type judged struct {
+		held   []string
+		params []*ssa.Parameter
+	}
+	judge := func(ref ssa.Value) judged {
+		var j judged
+		seenH := map[string]bool{}
+		for o := range eng.pts(ref, nil) {
+			if o.mark {
+				if w, ok := heldField(o.v); ok && !seenH[w] {
+					seenH[w] = true
+					j.held = append(j.held, w)
+				}
+				continue
+			}
+			if p, ok := o.v.(*ssa.Parameter); ok && o.ctx == nil {
+				j.params = append(j.params, p)
+			}
+		}
+		sort.Strings(j.held)
+		return j
+	}
+	libReadOnly := func(n string) bool {
+		for _, p := range []string{"(*sync.RWMutex).", "(*sync.Mutex).", "context.", "(context.", "fmt.", "strings.", "strconv.", "errors.", "sync/atomic.Load",
+			"(*go.etcd.io/etcd/client/v3.Client).Get", "(go.etcd.io/etcd/client/v3.KV).Get", "encoding/json.Marshal", "(*log/slog.Logger).", "log/slog.", "time.", "(time.",
+			"google.golang.org/protobuf/proto.Clone", "google.golang.org/protobuf/proto.Marshal", "slices.Clone", "maps.Clone", "slices.Contains", "slices.Index", "bytes.Equal"} {
+			if strings.HasPrefix(n, p) {
+				return true
+			}
+		}
+		return false
+	}
+	type wsite struct {
+		fn   *ssa.Function
+		in   ssa.Instruction
+		ref  ssa.Value
+		what string
+	}
+	var sites []wsite
 	for f := range all {
 		for _, b := range f.Blocks {
 			for _, in := range b.Instrs {
 				switch x := in.(type) {
 				case *ssa.Store:
-					if ok, w := throughStore(x.Addr); ok {
-						writes = append(writes, fmt.Sprintf("%s: store to %s in %s", m.Pos(x.Pos()), w, f.Name()))
+					if _, local := x.Addr.(*ssa.Alloc); local {
+						continue
 					}
+					sites = append(sites, wsite{f, in, x.Addr, "store"})
 				case *ssa.MapUpdate:
-					if ok, w := throughStore(x.Map); ok {
-						writes = append(writes, fmt.Sprintf("%s: map update of %s in %s", m.Pos(x.Pos()), w, f.Name()))
-					}
-				case *ssa.Call:
-					if bi, ok := x.Call.Value.(*ssa.Builtin); ok && (bi.Name() == "delete" || bi.Name() == "clear") {
-						if ok, w := throughStore(x.Call.Args[0]); ok {
-							writes = append(writes, fmt.Sprintf("%s: %s on %s in %s", m.Pos(x.Pos()), bi.Name(), w, f.Name()))
+					sites = append(sites, wsite{f, in, x.Map, "map update"})
+				case ssa.CallInstruction:
+					cc := x.Common()
+					if bi, ok := cc.Value.(*ssa.Builtin); ok {
+						switch bi.Name() {
+						case "delete", "clear", "copy":
+							sites = append(sites, wsite{f, in, cc.Args[0], bi.Name()})
 						}
+						continue
+					}
+					// library callee (no body in the module): a reference argument may be written
+					// unless the callee is in the read-only table
+					localTarget := false
+					if cc.IsInvoke() {
+						localTarget = len(implementers(m, cc.Value.Type(), cc.Method)) > 0
+					} else if g, _ := calleeOf(cc); g != nil {
+						localTarget = g.Blocks != nil && fnPkg(g) != nil && m.isLocalPkg(fnPkg(g))
+					} else {
+						localTarget = true // dynamic call of a function value: closures are in the reachable set
+					}
+					n := calleeName(cc)
+					if localTarget || libReadOnly(n) {
+						continue
+					}
+					args := cc.Args
+					if cc.IsInvoke() {
+						args = append([]ssa.Value{cc.Value}, args...)
+					}
+					for _, a := range args {
+						if mi, ok := a.(*ssa.MakeInterface); ok {
+							a = mi.X
+						}
+						if !refCarrying(a.Type()) {
+							continue
+						}
+						if _, isFn := a.Type().Underlying().(*types.Signature); isFn {
+							continue
+						}
+						sites = append(sites, wsite{f, in, a, "argument of library function " + n})
 					}
 				}
 			}
 		}
 	}
-	// interprocedural part: (a) a reachable function that writes through one of its parameters must
-	// not be handed store-held memory; (b) store-held memory passed to library code is listed and
-	// must be a known read-only use.
+	var writes []string
 	paramWrites := map[*ssa.Function]map[int]bool{}
-	rootParams := func(addr ssa.Value) []*ssa.Parameter {
-		var ps []*ssa.Parameter
-		addrChain(addr, func(v ssa.Value) {
-			if p, ok := v.(*ssa.Parameter); ok {
-				ps = append(ps, p)
-			}
-		})
-		return ps
-	}
-	markParam := func(f *ssa.Function, p *ssa.Parameter) bool {
+	markParam := func(p *ssa.Parameter) bool {
+		f := p.Parent()
 		for i, q := range f.Params {
 			if q == p {
 				if paramWrites[f] == nil {
@@ -336,52 +401,25 @@ func checkC40(c *Ctx, r *Report) {
 		}
 		return false
 	}
-	for f := range all {
-		for _, b := range f.Blocks {
-			for _, in := range b.Instrs {
-				var addr ssa.Value
-				switch x := in.(type) {
-				case *ssa.Store:
-					addr = x.Addr
-				case *ssa.MapUpdate:
-					addr = x.Map
-				case *ssa.Call:
-					if bi, ok := x.Call.Value.(*ssa.Builtin); ok && (bi.Name() == "delete" || bi.Name() == "clear" || bi.Name() == "copy") {
-						addr = x.Call.Args[0]
-					}
-				}
-				if addr != nil {
-					for _, p := range rootParams(addr) {
-						markParam(f, p)
-					}
-				}
+	dbg := os.Getenv("KAFCHECK_C40_DEBUG")
+	for _, w := range sites {
+		j := judge(w.ref)
+		if dbg != "" && strings.Contains(w.fn.String(), dbg) {
+			fmt.Fprintf(os.Stderr, "DEBUG %s %s %s ref=%s held=%v params=%v\n", w.fn.Name(), m.Pos(w.in.Pos()), w.what, describe(w.ref), j.held, j.params)
+			for o := range eng.pts(w.ref, nil) {
+				fmt.Fprintf(os.Stderr, "    obj %s mark=%v ctx=%v\n", describe(o.v), o.mark, o.ctx != nil)
 			}
 		}
-	}
-	isRef := func(t types.Type) bool {
-		switch u := t.Underlying().(type) {
-		case *types.Pointer, *types.Slice, *types.Map:
-			return true
-		case *types.Struct:
-			// a struct passed by value still shares the memory behind its slice/map/pointer fields
-			for i := 0; i < u.NumFields(); i++ {
-				switch u.Field(i).Type().Underlying().(type) {
-				case *types.Pointer, *types.Slice, *types.Map:
-					return true
-				}
-			}
+		for _, h := range j.held {
+			writes = append(writes, fmt.Sprintf("%s: %s in %s can reach memory held in %s", m.Pos(w.in.Pos()), w.what, w.fn.Name(), h))
 		}
-		return false
-	}
-	libReadOnly := func(n string) bool {
-		for _, p := range []string{"(*sync.RWMutex).", "(*sync.Mutex).", "context.", "(context.", "fmt.", "strings.", "strconv.", "errors.", "sync/atomic.Load", "(*go.etcd.io/etcd/client/v3.Client).Get", "(go.etcd.io/etcd/client/v3.KV).Get"} {
-			if strings.HasPrefix(n, p) {
-				return true
-			}
+		for _, p := range j.params {
+			markParam(p)
 		}
-		return false
 	}
+	// callers of functions that write through a parameter
 	nArgs := 0
+	reported := map[string]bool{}
 	for changed := true; changed; {
 		changed = false
 		for f := range all {
@@ -393,23 +431,33 @@ func checkC40(c *Ctx, r *Report) {
 				} else if g, _ := calleeOf(cc); g != nil {
 					targets = []*ssa.Function{g}
 				}
-				for ai, a := range cc.Args {
-					if mi, ok := a.(*ssa.MakeInterface); ok {
-						a = mi.X
-					}
-					if !isRef(a.Type()) {
-						continue
-					}
-					for _, g := range targets {
-						pi := ai
-						if cc.IsInvoke() {
-							pi = ai + 1
+				args := cc.Args
+				if cc.IsInvoke() {
+					args = append([]ssa.Value{cc.Value}, args...)
+				}
+				for _, g := range targets {
+					for ai, a := range args {
+						if !paramWrites[g][ai] {
+							continue
 						}
-						if paramWrites[g][pi] {
-							for _, p := range rootParams(a) {
-								if markParam(f, p) {
-									changed = true
-								}
+						nArgs++
+						j := judge(a)
+						if dbg != "" && strings.Contains(g.String(), dbg) {
+							fmt.Fprintf(os.Stderr, "DEBUG call %s -> %s arg %d = %s held=%v params=%v\n", f.Name(), g.Name(), ai, describe(a), j.held, j.params)
+							for o := range eng.pts(a, nil) {
+								fmt.Fprintf(os.Stderr, "    obj %s (%T) mark=%v ctx=%v\n", describe(o.v), o.v, o.mark, o.ctx != nil)
+							}
+						}
+						for _, h := range j.held {
+							msg := fmt.Sprintf("%s: %s passes memory held in %s to %s, which writes through that parameter", m.Pos(call.Pos()), f.Name(), h, g.Name())
+							if !reported[msg] {
+								reported[msg] = true
+								writes = append(writes, msg)
+							}
+						}
+						for _, p := range j.params {
+							if markParam(p) {
+								changed = true
 							}
 						}
 					}
@@ -417,140 +465,14 @@ func checkC40(c *Ctx, r *Report) {
 			}
 		}
 	}
-	for f := range all {
-		for _, call := range callsIn(f) {
-			cc := call.Common()
-			if _, isBuiltin := cc.Value.(*ssa.Builtin); isBuiltin {
-				continue
-			}
-			var targets []*ssa.Function
-			if cc.IsInvoke() {
-				targets = implementers(m, cc.Value.Type(), cc.Method)
-			} else if g, _ := calleeOf(cc); g != nil {
-				targets = []*ssa.Function{g}
-			}
-			n := calleeName(cc)
-			for ai, a := range cc.Args {
-				if mi, ok := a.(*ssa.MakeInterface); ok {
-					a = mi.X
-				}
-				if !isRef(a.Type()) {
-					continue
-				}
-				held, w := throughStore(a)
-				if !held {
-					continue
-				}
-				nArgs++
-				local := false
-				for _, g := range targets {
-					if g.Blocks != nil && fnPkg(g) != nil && m.isLocalPkg(fnPkg(g)) {
-						local = true
-						pi := ai
-						if cc.IsInvoke() {
-							pi = ai + 1
-						}
-						if paramWrites[g][pi] {
-							writes = append(writes, fmt.Sprintf("%s: %s passes %s to %s, which writes through that parameter", m.Pos(call.Pos()), f.Name(), w, g.Name()))
-						}
-					}
-				}
-				if !local && !libReadOnly(n) {
-					writes = append(writes, fmt.Sprintf("%s: %s passes store-held %s to library function %s (not in the read-only table)", m.Pos(call.Pos()), f.Name(), w, n))
-				}
-			}
-		}
-	}
-	r.Extra["store_held_arguments_checked"] = nArgs
+	r.Extra["write_sites_judged"] = len(sites)
+	r.Extra["arguments_to_writing_callees_judged"] = nArgs
+	r.Extra["values_inspected"] = eng.Visited
 	sort.Strings(writes)
 	if len(writes) == 0 {
-		r.ok("C40.O2", "no reachable function writes store state", "", fmt.Sprintf("%d reachable functions scanned", len(all)))
+		r.ok("C40.O2", "no reachable write can land in memory held by the store", "", fmt.Sprintf("%d reachable functions, %d write sites, %d values inspected", len(all), len(sites), eng.Visited))
 	} else {
-		r.viol("C40.O2", "no reachable function writes store state", "", strings.Join(writes, "; "))
-	}
-
-	// ---- O3
-	var shared []string
-	nStores := 0
-	for f := range all {
-		if p := fnPkg(f); p == nil || p.Path() != pkgMCP {
-			continue
-		}
-		for _, b := range f.Blocks {
-			for _, in := range b.Instrs {
-				var addr ssa.Value
-				switch x := in.(type) {
-				case *ssa.Store:
-					addr = x.Addr
-				case *ssa.MapUpdate:
-					addr = x.Map
-				default:
-					continue
-				}
-				nStores++
-				root := addr
-				for {
-					switch y := root.(type) {
-					case *ssa.FieldAddr:
-						root = y.X
-						continue
-					case *ssa.IndexAddr:
-						root = y.X
-						continue
-					case *ssa.Slice:
-						root = y.X
-						continue
-					}
-					break
-				}
-				okRoot := false
-				switch y := strip(root).(type) {
-				case *ssa.Alloc, *ssa.MakeSlice, *ssa.MakeMap:
-					okRoot = true
-				case *ssa.FreeVar:
-					okRoot = true // captured locals of the enclosing handler factory
-				case *ssa.Phi:
-					okRoot = true
-					for _, o := range origins(y) {
-						switch oo := strip(o).(type) {
-						case *ssa.Alloc, *ssa.MakeSlice, *ssa.MakeMap:
-						case *ssa.Call:
-							if calleeName(&oo.Call) != "builtin.append" {
-								okRoot = false
-							}
-						case *ssa.Const:
-						default:
-							okRoot = false
-						}
-					}
-				case *ssa.Call:
-					okRoot = calleeName(&y.Call) == "builtin.append"
-				case *ssa.UnOp:
-					// load of a local holding a fresh allocation
-					okRoot = true
-					for _, o := range origins(y) {
-						switch oo := strip(o).(type) {
-						case *ssa.Alloc, *ssa.MakeSlice, *ssa.MakeMap, *ssa.Const:
-						case *ssa.Call:
-							if calleeName(&oo.Call) != "builtin.append" && !strings.HasPrefix(calleeName(&oo.Call), pkgMCP+".") {
-								okRoot = false
-							}
-						default:
-							okRoot = false
-						}
-					}
-				}
-				if !okRoot {
-					shared = append(shared, fmt.Sprintf("%s: %s writes through %s", m.Pos(in.Pos()), f.Name(), describe(root)))
-				}
-			}
-		}
-	}
-	sort.Strings(shared)
-	if len(shared) == 0 {
-		r.ok("C40.O3", "tool code writes only into its own allocations", "", fmt.Sprintf("%d stores inspected", nStores))
-	} else {
-		r.viol("C40.O3", "tool code writes only into its own allocations", "", strings.Join(shared, "; "))
+		r.viol("C40.O2", "no reachable write can land in memory held by the store", "", strings.Join(writes, "; "))
 	}
 
 	// ---- O4
@@ -574,129 +496,9 @@ func checkC40(c *Ctx, r *Report) {
 	}
 	sort.Strings(refl)
 	if len(refl) == 0 {
-		r.ok("C40.O4", "no reflection or unsafe in the reachable set", "", "")
+		r.ok("C40.O3", "no reflection or unsafe in the reachable set", "", "")
 	} else {
-		r.viol("C40.O4", "no reflection or unsafe in the reachable set", "", strings.Join(refl, "; "))
+		r.viol("C40.O3", "no reflection or unsafe in the reachable set", "", strings.Join(refl, "; "))
 	}
 }
 
-// addrChain visits the values an address is computed from: the containing object of a field or
-// element, the location a pointer / slice / map header was loaded from, and for locals the values
-// stored into them. Unlike backSlice it never follows the value being written.
-func addrChain(addr ssa.Value, visit func(ssa.Value)) {
-	seen := map[ssa.Value]bool{}
-	var walk func(v ssa.Value)
-	walk = func(v ssa.Value) {
-		if v == nil || seen[v] {
-			return
-		}
-		seen[v] = true
-		visit(v)
-		switch x := v.(type) {
-		case *ssa.FieldAddr:
-			walk(x.X)
-		case *ssa.IndexAddr:
-			walk(x.X)
-		case *ssa.Field:
-			walk(x.X)
-		case *ssa.Slice:
-			walk(x.X)
-		case *ssa.ChangeType:
-			walk(x.X)
-		case *ssa.Convert:
-			walk(x.X)
-		case *ssa.Phi:
-			for _, e := range x.Edges {
-				walk(e)
-			}
-		case *ssa.UnOp:
-			if x.Op != token.MUL {
-				return
-			}
-			// a load: the pointer / slice / map header read here is whatever was stored in that
-			// location. For locals that is the stored values (field-sensitive for local structs,
-			// including whole-struct copies such as spilled by-value parameters); for any other
-			// location the chain continues through the memory that holds it.
-			switch a := x.X.(type) {
-			case *ssa.Alloc:
-				for _, ref := range *a.Referrers() {
-					if st, ok := ref.(*ssa.Store); ok && st.Addr == a {
-						walk(st.Val)
-					}
-				}
-				return
-			case *ssa.FieldAddr:
-				if al, ok := a.X.(*ssa.Alloc); ok {
-					for _, ref := range *al.Referrers() {
-						switch y := ref.(type) {
-						case *ssa.Store:
-							if y.Addr == al {
-								walk(y.Val)
-							}
-						case *ssa.FieldAddr:
-							if y.Field == a.Field {
-								for _, r2 := range *y.Referrers() {
-									if st, ok := r2.(*ssa.Store); ok && st.Addr == y {
-										walk(st.Val)
-									}
-								}
-							}
-						}
-					}
-					return
-				}
-			}
-			walk(x.X)
-		case *ssa.Call:
-			if bi, ok := x.Call.Value.(*ssa.Builtin); ok && bi.Name() == "append" {
-				walk(x.Call.Args[0])
-				return
-			}
-			// a pointer handed back by a repository function is whatever that function returns
-			if g, _ := calleeOf(&x.Call); g != nil && g.Blocks != nil {
-				for _, b := range g.Blocks {
-					if ret, ok := b.Instrs[len(b.Instrs)-1].(*ssa.Return); ok {
-						for _, rv := range ret.Results {
-							switch rv.Type().Underlying().(type) {
-							case *types.Pointer, *types.Slice, *types.Map, *types.Struct, *types.Tuple:
-								walk(rv)
-							}
-						}
-					}
-				}
-			}
-		case *ssa.Extract:
-			walk(x.Tuple)
-		case *ssa.Lookup:
-			walk(x.X)
-		case *ssa.Next:
-			walk(x.Iter)
-		case *ssa.Range:
-			walk(x.X)
-		case *ssa.MakeInterface:
-			walk(x.X)
-		case *ssa.TypeAssert:
-			walk(x.X)
-		case *ssa.FreeVar:
-			// captured variable: the binding supplied where the closure is created
-			fn := x.Parent()
-			if fn == nil || fn.Parent() == nil {
-				return
-			}
-			idx := -1
-			for i, fv := range fn.FreeVars {
-				if fv == x {
-					idx = i
-				}
-			}
-			for _, b := range fn.Parent().Blocks {
-				for _, in := range b.Instrs {
-					if mc, ok := in.(*ssa.MakeClosure); ok && mc.Fn == fn && idx >= 0 && idx < len(mc.Bindings) {
-						walk(mc.Bindings[idx])
-					}
-				}
-			}
-		}
-	}
-	walk(addr)
-}
